@@ -97,6 +97,15 @@ InFunc == \E i \in 1..Len(stack) : stack[i].k = "func"
 
 Read(b) == IF b = 0 THEN reads ELSE reads \cup {b}
 
+\* ids of the local declarations visible at the current program point
+VisIds == UNION {{stack[i].vars[j].id : j \in 1..Len(stack[i].vars)} : i \in 1..Len(stack)}
+
+\* as-built (Dev_InitialiserSeesNewLocal, completion): locals whose initialiser function encloses the point
+PendIds == {stack[i].pend.id : i \in {j \in 1..Len(stack) : "pend" \in DOMAIN stack[j]}}
+
+\* inside the body of a function statement that defines a global
+InGFunc == \E i \in 1..Len(stack) : "gname" \in DOMAIN stack[i]
+
 More == Len(prog) < MaxItems
 CanOpen == Len(stack) < MaxDepth
 On(k) == k \in Kinds
@@ -124,7 +133,7 @@ Local(n, fl, u) ==
            a0 == IF u = None THEN NoAlt ELSE HideAlt(stack, u)
            alt == IF u = n /\ fl \in {"binop", "table"} THEN [a0 EXCEPT !.init = nid] ELSE a0
        IN
-       /\ prog' = Append(prog, [infn |-> InFunc, k |-> "local", n |-> n, id |-> nid, fl |-> fl, u |-> u, b |-> b, alt |-> alt])
+       /\ prog' = Append(prog, [infn |-> InFunc, vis |-> VisIds, vispend |-> PendIds, top |-> AtTop, ingf |-> InGFunc, k |-> "local", n |-> n, id |-> nid, fl |-> fl, u |-> u, b |-> b, alt |-> alt])
        /\ reads' = Read(b)
        /\ stack' = Declare(stack, n, nid)       \* visible only from the next statement on
        /\ nid' = nid + 1
@@ -139,7 +148,7 @@ Local2(n, m, u) ==
            \* (the first name's initialiser is the bare name u, which is handled correctly as built)
            alt == IF u = m THEN [a0 EXCEPT !.init = nid + 1] ELSE a0
        IN
-       /\ prog' = Append(prog, [infn |-> InFunc, k |-> "local2", n |-> n, id |-> nid, m |-> m, mid |-> nid + 1, u |-> u, b |-> b, alt |-> alt])
+       /\ prog' = Append(prog, [infn |-> InFunc, vis |-> VisIds, vispend |-> PendIds, top |-> AtTop, ingf |-> InGFunc, k |-> "local2", n |-> n, id |-> nid, m |-> m, mid |-> nid + 1, u |-> u, b |-> b, alt |-> alt])
        /\ reads' = Read(b)
        /\ stack' = Declare(Declare(stack, n, nid), m, nid + 1)
        /\ nid' = nid + 2
@@ -150,7 +159,7 @@ Local2(n, m, u) ==
 Use(u) ==
     /\ On("use") /\ More
     /\ LET b == Lookup(stack, u) IN
-       /\ prog' = Append(prog, [infn |-> InFunc, k |-> "use", u |-> u, b |-> b, alt |-> HideAlt(stack, u)])
+       /\ prog' = Append(prog, [infn |-> InFunc, vis |-> VisIds, vispend |-> PendIds, top |-> AtTop, ingf |-> InGFunc, k |-> "use", u |-> u, b |-> b, alt |-> HideAlt(stack, u)])
        /\ reads' = Read(b)
     /\ UNCHANGED <<stack, nid, nfile, gdefs, empty>>
 
@@ -172,7 +181,7 @@ Assign(n, fl, u) ==
            naltn == IF nb = 0 THEN NoAlt ELSE HideAlt(stack, n)
            \* as-built (Dev_GlobalWriteInsideOwnFunction): an assignment to global n inside `function n() .. end`
            selfw == nb = 0 /\ \E i \in 1..Len(stack) : "gname" \in DOMAIN stack[i] /\ stack[i].gname = n
-       IN /\ prog' = Append(prog, [infn |-> InFunc, k |-> "assign", n |-> n, nb |-> nb, id |-> gid, fl |-> fl, u |-> u, b |-> b,
+       IN /\ prog' = Append(prog, [infn |-> InFunc, vis |-> VisIds, vispend |-> PendIds, top |-> AtTop, ingf |-> InGFunc, k |-> "assign", n |-> n, nb |-> nb, id |-> gid, fl |-> fl, u |-> u, b |-> b,
                                    alt |-> alt, altn |-> naltn, selfw |-> selfw])
           /\ reads' = Read(b)
           /\ nid' = IF nb = 0 THEN nid + 1 ELSE nid
@@ -182,7 +191,7 @@ Assign(n, fl, u) ==
 
 Do ==
     /\ On("do") /\ More /\ CanOpen
-    /\ prog' = Append(prog, [infn |-> InFunc, k |-> "do"])
+    /\ prog' = Append(prog, [infn |-> InFunc, vis |-> VisIds, vispend |-> PendIds, top |-> AtTop, ingf |-> InGFunc, k |-> "do"])
     /\ stack' = Push(Frame("do"))
     /\ UNCHANGED <<nid, nfile, reads, gdefs, empty>>
 
@@ -190,7 +199,7 @@ Do ==
 While(u) ==
     /\ On("while") /\ More /\ CanOpen
     /\ LET b == Lookup(stack, u) IN
-       /\ prog' = Append(prog, [infn |-> InFunc, k |-> "while", u |-> u, b |-> b, alt |-> HideAlt(stack, u)])
+       /\ prog' = Append(prog, [infn |-> InFunc, vis |-> VisIds, vispend |-> PendIds, top |-> AtTop, ingf |-> InGFunc, k |-> "while", u |-> u, b |-> b, alt |-> HideAlt(stack, u)])
        /\ reads' = Read(b)
     /\ stack' = Push(Frame("while"))
     /\ UNCHANGED <<nid, nfile, gdefs, empty>>
@@ -199,7 +208,7 @@ While(u) ==
 If(u) ==
     /\ On("if") /\ More /\ CanOpen
     /\ LET b == Lookup(stack, u) IN
-       /\ prog' = Append(prog, [infn |-> InFunc, k |-> "if", u |-> u, b |-> b, alt |-> HideAlt(stack, u)])
+       /\ prog' = Append(prog, [infn |-> InFunc, vis |-> VisIds, vispend |-> PendIds, top |-> AtTop, ingf |-> InGFunc, k |-> "if", u |-> u, b |-> b, alt |-> HideAlt(stack, u)])
        /\ reads' = Read(b)
     /\ stack' = Push(Frame("if"))
     /\ UNCHANGED <<nid, nfile, gdefs, empty>>
@@ -208,20 +217,20 @@ If(u) ==
 ElseIf(u) ==
     /\ On("if") /\ More /\ Top.k = "if"
     /\ LET b == Lookup(Pop, u) IN
-       /\ prog' = Append(prog, [infn |-> InFunc, k |-> "elseif", u |-> u, b |-> b, alt |-> HideAlt(Pop, u)])
+       /\ prog' = Append(prog, [infn |-> InFunc, vis |-> VisIds, vispend |-> PendIds, top |-> AtTop, ingf |-> InGFunc, k |-> "elseif", u |-> u, b |-> b, alt |-> HideAlt(Pop, u)])
        /\ reads' = Read(b)
     /\ stack' = Append(Pop, Frame("if"))
     /\ UNCHANGED <<nid, nfile, gdefs, empty>>
 
 Else ==
     /\ On("if") /\ More /\ Top.k = "if"
-    /\ prog' = Append(prog, [infn |-> InFunc, k |-> "else"])
+    /\ prog' = Append(prog, [infn |-> InFunc, vis |-> VisIds, vispend |-> PendIds, top |-> AtTop, ingf |-> InGFunc, k |-> "else"])
     /\ stack' = Append(Pop, Frame("else"))
     /\ UNCHANGED <<nid, nfile, reads, gdefs, empty>>
 
 Repeat ==
     /\ On("repeat") /\ More /\ CanOpen
-    /\ prog' = Append(prog, [infn |-> InFunc, k |-> "repeat"])
+    /\ prog' = Append(prog, [infn |-> InFunc, vis |-> VisIds, vispend |-> PendIds, top |-> AtTop, ingf |-> InGFunc, k |-> "repeat"])
     /\ stack' = Push(Frame("repeat"))
     /\ UNCHANGED <<nid, nfile, reads, gdefs, empty>>
 
@@ -229,7 +238,7 @@ Repeat ==
 Until(u) ==
     /\ On("repeat") /\ More /\ Top.k = "repeat"
     /\ LET b == Lookup(stack, u) IN
-       /\ prog' = Append(prog, [infn |-> InFunc, k |-> "until", u |-> u, b |-> b, alt |-> HideAlt(stack, u)])
+       /\ prog' = Append(prog, [infn |-> InFunc, vis |-> VisIds, vispend |-> PendIds, top |-> AtTop, ingf |-> InGFunc, k |-> "until", u |-> u, b |-> b, alt |-> HideAlt(stack, u)])
        /\ reads' = Read(b)
     /\ stack' = Pop
     /\ UNCHANGED <<nid, nfile, gdefs, empty>>
@@ -241,7 +250,7 @@ ForNum(n, u) ==
            a0 == HideAlt(stack, u)
            alt == IF u = n THEN [a0 EXCEPT !.forb = nid] ELSE a0
        IN
-       /\ prog' = Append(prog, [infn |-> InFunc, k |-> "fornum", n |-> n, id |-> nid, u |-> u, b |-> b, alt |-> alt])
+       /\ prog' = Append(prog, [infn |-> InFunc, vis |-> VisIds, vispend |-> PendIds, top |-> AtTop, ingf |-> InGFunc, k |-> "fornum", n |-> n, id |-> nid, u |-> u, b |-> b, alt |-> alt])
        /\ reads' = Read(b)
     /\ stack' = Declare(Push(Frame("for")), n, nid)
     /\ nid' = nid + 1
@@ -254,7 +263,7 @@ ForIn(n, u) ==
            a0 == HideAlt(stack, u)
            alt == IF u = n THEN [a0 EXCEPT !.forb = nid] ELSE a0
        IN
-       /\ prog' = Append(prog, [infn |-> InFunc, k |-> "forin", n |-> n, id |-> nid, u |-> u, b |-> b, alt |-> alt])
+       /\ prog' = Append(prog, [infn |-> InFunc, vis |-> VisIds, vispend |-> PendIds, top |-> AtTop, ingf |-> InGFunc, k |-> "forin", n |-> n, id |-> nid, u |-> u, b |-> b, alt |-> alt])
        /\ reads' = Read(b)
     /\ stack' = Declare(Push(Frame("for")), n, nid)
     /\ nid' = nid + 1
@@ -263,7 +272,7 @@ ForIn(n, u) ==
 \* local function n(p) : n is visible in its own body
 LFunc(n, p) ==
     /\ On("lfunc") /\ More /\ CanOpen
-    /\ prog' = Append(prog, [infn |-> InFunc, k |-> "lfunc", n |-> n, id |-> nid, p |-> p, pid |-> nid + 1])
+    /\ prog' = Append(prog, [infn |-> InFunc, vis |-> VisIds, vispend |-> PendIds, top |-> AtTop, ingf |-> InGFunc, k |-> "lfunc", n |-> n, id |-> nid, p |-> p, pid |-> nid + 1])
     /\ stack' = Declare(Append(Declare(stack, n, nid), Frame("func")), p, nid + 1)
     /\ nid' = nid + 2
     /\ UNCHANGED <<nfile, reads, gdefs, empty>>
@@ -271,7 +280,7 @@ LFunc(n, p) ==
 \* local n = function(p) : n is NOT visible in the body (it is an initialiser)
 LEqFunc(n, p) ==
     /\ On("lefunc") /\ More /\ CanOpen
-    /\ prog' = Append(prog, [infn |-> InFunc, k |-> "lefunc", n |-> n, id |-> nid, p |-> p, pid |-> nid + 1])
+    /\ prog' = Append(prog, [infn |-> InFunc, vis |-> VisIds, vispend |-> PendIds, top |-> AtTop, ingf |-> InGFunc, k |-> "lefunc", n |-> n, id |-> nid, p |-> p, pid |-> nid + 1])
     /\ stack' = Declare(Append(stack, [k |-> "func", vars |-> <<>>, pend |-> [n |-> n, id |-> nid]]), p, nid + 1)
     /\ nid' = nid + 2
     /\ UNCHANGED <<nfile, reads, gdefs, empty>>
@@ -293,7 +302,7 @@ GFunc(n, p) ==
            altn == IF nb = 0 THEN NoAlt
                    ELSE IF hid # 0 THEN [NoAlt EXCEPT !.hide = LookupSkip(stack, n, Hidden(stack) \cup {hid})]
                    ELSE HideAlt(stack, n)
-       IN /\ prog' = Append(prog, [infn |-> InFunc, k |-> "gfunc", n |-> n, nb |-> nb, id |-> gid, p |-> p, pid |-> pid, altn |-> altn])
+       IN /\ prog' = Append(prog, [infn |-> InFunc, vis |-> VisIds, vispend |-> PendIds, top |-> AtTop, ingf |-> InGFunc, k |-> "gfunc", n |-> n, nb |-> nb, id |-> gid, p |-> p, pid |-> pid, altn |-> altn])
           /\ stack' = Declare(Append(stack, fr), p, pid)
           /\ nid' = pid + 1
           /\ gdefs' = IF nb = 0 THEN gdefs \cup {<<n, nid, nfile, AtTop, Len(stack)>>} ELSE gdefs
@@ -304,7 +313,7 @@ GFunc(n, p) ==
 Meth(t, colon, p) ==
     /\ On("meth") /\ More /\ CanOpen
     /\ LET tb == Lookup(stack, t) IN
-       /\ prog' = Append(prog, [infn |-> InFunc, k |-> "meth", t |-> t, tb |-> tb, colon |-> colon, p |-> p, pid |-> nid, altt |-> HideAlt(stack, t)])
+       /\ prog' = Append(prog, [infn |-> InFunc, vis |-> VisIds, vispend |-> PendIds, top |-> AtTop, ingf |-> InGFunc, k |-> "meth", t |-> t, tb |-> tb, colon |-> colon, p |-> p, pid |-> nid, altt |-> HideAlt(stack, t)])
        /\ reads' = Read(tb)
     /\ stack' = Declare(Push(Frame("func")), p, nid)
     /\ nid' = nid + 1
@@ -313,7 +322,7 @@ Meth(t, colon, p) ==
 \* end : closes do/while/if/else/for/function bodies
 End ==
     /\ More /\ Top.k \in {"do", "while", "if", "else", "for", "func"}
-    /\ prog' = Append(prog, [infn |-> InFunc, k |-> "end"])
+    /\ prog' = Append(prog, [infn |-> InFunc, vis |-> VisIds, vispend |-> PendIds, top |-> AtTop, ingf |-> InGFunc, k |-> "end"])
     /\ stack' = IF Top.k = "func" /\ "pend" \in DOMAIN Top
                 THEN Declare(Pop, Top.pend.n, Top.pend.id)     \* `local n = function` becomes visible now
                 ELSE Pop
@@ -322,7 +331,7 @@ End ==
 \* start the next file (only between complete top-level statements)
 NextFile ==
     /\ On("file") /\ More /\ AtTop /\ nfile < MaxFiles
-    /\ prog' = Append(prog, [infn |-> InFunc, k |-> "file"])
+    /\ prog' = Append(prog, [infn |-> InFunc, vis |-> VisIds, vispend |-> PendIds, top |-> AtTop, ingf |-> InGFunc, k |-> "file"])
     /\ stack' = <<Frame("file")>>
     /\ nfile' = nfile + 1
     /\ UNCHANGED <<nid, reads, gdefs, empty>>
@@ -388,11 +397,15 @@ Closer(fr) == IF fr.k = "repeat" THEN [k |-> "untilc"] ELSE [k |-> "end"]
 \* closers for the open blocks, innermost first
 Closers == [i \in 1..(Len(stack) - 1) |-> Closer(stack[Len(stack) + 1 - i])]
 
+\* visible at the end of the text, after the closers: the top-level locals of the last file
+VisEnd == {stack[1].vars[j].id : j \in 1..Len(stack[1].vars)}
+          \cup (IF Len(stack) >= 2 /\ "pend" \in DOMAIN stack[2] THEN {stack[2].pend.id} ELSE {})
+
 GDefList == {[n |-> g[1], id |-> g[2], file |-> g[3], top |-> g[4]] : g \in gdefs}
 
 Emit ==
     IF Len(prog) >= EmitMin
     THEN PrintT("@@J " \o ToJson([fam |-> "scope", items |-> prog \o Closers,
-                                  gdefs |-> GDefList, reads |-> reads, ndecl |-> nid - 1]))
+                                  gdefs |-> GDefList, reads |-> reads, ndecl |-> nid - 1, visend |-> VisEnd]))
     ELSE TRUE
 =============================================================================
